@@ -148,7 +148,7 @@ impl MintBuilder {
                             .entry(asset_name.clone())
                             .or_insert(Int::new(&BigNum::zero()));
                         if overwrite {
-                            mint.0 = amount.0;
+                            mint.0 = Self::checked_mint_sum(0, amount.0)?;
                         } else {
                             mint.0 = Self::checked_mint_sum(mint.0, amount.0)?;
                         }
@@ -172,7 +172,7 @@ impl MintBuilder {
                             .entry(asset_name.clone())
                             .or_insert(Int::new(&BigNum::zero()));
                         if overwrite {
-                            mint.0 = amount.0;
+                            mint.0 = Self::checked_mint_sum(0, amount.0)?;
                         } else {
                             mint.0 = Self::checked_mint_sum(mint.0, amount.0)?;
                         }
@@ -186,7 +186,8 @@ impl MintBuilder {
 
     fn checked_mint_sum(current: i128, amount: i128) -> Result<i128, JsError> {
         let sum = current + amount;
-        if sum > u64::MAX as i128 || sum < -(u64::MAX as i128) - 1 {
+        // a burn is handed on as an unsigned quantity: its magnitude has to fit 64 bits as well
+        if sum > u64::MAX as i128 || sum < -(u64::MAX as i128) {
             return Err(JsError::from_str("Mint amount overflow"));
         }
         Ok(sum)
